@@ -89,22 +89,33 @@ pub fn run(case: &Case, thorough: bool) -> CaseRes {
         cmd.env("RAYON_NUM_THREADS", t).env("MELDA_DATA_CACHE_CAP", c).env("MELDA_ARRAYDESCRIPTORS_CACHE_CAP", c);
         cmd.stdin(Stdio::piped()).stdout(Stdio::piped()).stderr(Stdio::null());
         let name = format!("threads={} caches={} listing={:?}", t, c, p);
-        let r = (|| -> Result<Vec<String>, String> {
-            let mut ch = cmd.spawn().map_err(|e| e.to_string())?;
-            ch.stdin.take().unwrap().write_all(&input).map_err(|e| e.to_string())?;
-            let out = ch.wait_with_output().map_err(|e| e.to_string())?;
-            let v: serde_json::Value = serde_json::from_slice(&out.stdout).map_err(|e| format!("child gave no result (status {:?}): {}", out.status.code(), e))?;
-            if let Some(e) = v.get("error").and_then(|e| e.as_str()) {
-                return Err(e.to_string());
+        // a child that produces no result at all (spawn failure, killed) says nothing about the library:
+        // retry, and if it stays silent the case is inconclusive
+        let mut r: Result<Vec<String>, String> = Err("no-result".into());
+        for _attempt in 0..3 {
+            r = (|| -> Result<Vec<String>, String> {
+                let mut ch = cmd.spawn().map_err(|_| "no-result".to_string())?;
+                ch.stdin.take().unwrap().write_all(&input).map_err(|_| "no-result".to_string())?;
+                let out = ch.wait_with_output().map_err(|_| "no-result".to_string())?;
+                let v: serde_json::Value = serde_json::from_slice(&out.stdout).map_err(|_| "no-result".to_string())?;
+                if let Some(e) = v.get("error").and_then(|e| e.as_str()) {
+                    return Err(e.to_string());
+                }
+                Ok(v.get("trace").and_then(|t| t.as_array()).map(|a| a.iter().filter_map(|x| x.as_str().map(|s| s.to_string())).collect()).unwrap_or_default())
+            })();
+            if r.as_ref().err().map(|e| e.as_str()) != Some("no-result") {
+                break;
             }
-            Ok(v.get("trace").and_then(|t| t.as_array()).map(|a| a.iter().filter_map(|x| x.as_str().map(|s| s.to_string())).collect()).unwrap_or_default())
-        })();
+        }
         traces.push((name, r));
     }
     let mut cnt = Counters::new();
     let mut log = vec![];
     let mut res: R<()> = Ok(());
     let mut nontrivial = false;
+    if traces.iter().any(|(_, t)| t.as_ref().err().map(|e| e.as_str()) == Some("no-result")) {
+        return CaseRes { counters: cnt, nontrivial: false, result: Err(Fail::Panic { op: "exec-case".into(), msg: "a child process produced no result (environment), case skipped".into() }), log, steps: 0 };
+    }
     let base = traces[0].clone();
     match &base.1 {
         Err(e) => {
